@@ -222,6 +222,19 @@ def TABLES():
                        ('serverCodes_signal', 'signalProcess'), ('serverCodes_clear', 'clearProcessLogs')):
         cs = sorted(_server_codes(rpc, meth), key=order.index)
         out.append('def %s : List Int := [%s]' % (lean, ', '.join('Faults_' + c for c in cs)))
+    # do_update.stop_failures: the statuses of a stopProcessGroup result that do not count as a failure
+    sf = _find(ctl, 'DefaultControllerPlugin.do_update.stop_failures')
+    comp = next((n for n in ast.walk(sf) if isinstance(n, ast.ListComp)), None)
+    okc = None
+    if comp is not None and len(comp.generators) == 1 and len(comp.generators[0].ifs) == 1:
+        t = comp.generators[0].ifs[0]
+        if isinstance(t, ast.Compare) and len(t.ops) == 1 and isinstance(t.ops[0], ast.NotIn) \
+                and ast.unparse(t.left) == "res['status']" and isinstance(t.comparators[0], ast.Tuple):
+            okc = [_fault_of(e) for e in t.comparators[0].elts]
+    if not okc or None in okc:
+        raise ValueError('do_update.stop_failures is not [res ... if res[status] not in (Faults...)]')
+    out.append("-- do_update.stop_failures: res['status'] not in (...) marks a failed stop")
+    out.append('def updateStopOk : List Int := [%s]' % ', '.join('Faults_' + c for c in okc))
     # help texts
     out.append('-- help_<action>: the strings passed to output(), in order')
     for h, lines in _help_texts().items():
@@ -273,6 +286,7 @@ def _site(qual, name, vars=None, **kw):
 P = 'DefaultControllerPlugin.'
 SITES = [
     _site('Controller.set_exitstatus_from_xmlrpc_fault', 'setexit', vars=_sx_vars),
+    _site('TailListener.error', 'taillistener'),
     _site('Controller.onecmd', 'onecmd', want={'onecmd_g4', 'onecmd_a14', 'onecmd_a15', 'onecmd_a18'}),
     _site('Controller.default', 'dflt'),
     _site('Controller.upcheck', 'upcheck'),
